@@ -61,6 +61,16 @@ def Opts.set (o : Opts) : OptName → Bool → Opts
   | .bytealigned, v => { o with bytealigned := v }
   | .mxfp, v => { o with mxfpOverflow := v }
 
+/-- Results (`ok v` / `error e`) can be compared. -/
+def exceptDecEq {ν : Type} [DecidableEq ν] (a b : Except Err ν) : Decidable (a = b) :=
+  match a, b with
+  | .ok x, .ok y => if h : x = y then isTrue (by rw [h]) else isFalse (fun e => by cases e; exact h rfl)
+  | .error x, .error y => if h : x = y then isTrue (by rw [h]) else isFalse (fun e => by cases e; exact h rfl)
+  | .ok _, .error _ => isFalse (fun e => by cases e)
+  | .error _, .ok _ => isFalse (fun e => by cases e)
+
+instance {ν : Type} [DecidableEq ν] : DecidableEq (Except Err ν) := exceptDecEq
+
 /-! ## `functools.lru_cache(maxsize)`: most recently used entry first -/
 
 abbrev Cache (κ ν : Type) := List (κ × ν)
@@ -209,7 +219,10 @@ def tableFind : Table → String × String → Option String
 
 /-- `for cls, d in methods.items(): for attr, method in d.items(): setattr(cls, attr, method)`
     (bitstring_options.py:66-69); the binding made last is found first. -/
-def applyTable (b : Table) (t : Table) : Table := t.foldl (fun acc e => e :: acc) b
+def applyTable (b : Table) (t : Table) : Table := t.reverse ++ b
+
+/-- The method a table names for an attribute (a later entry for the same attribute wins, as in a dict literal). -/
+def tableLast (t : Table) (k : String × String) : Option String := tableFind t.reverse k
 
 structure SysCfg where
   cap : CacheId → Nat
@@ -304,7 +317,72 @@ def sysRun (cfg : SysCfg) (s : Sys) : List SysOp → Sys × List SysOut
 def SysOut.pure (cfg : SysCfg) : SysOut → Bool
   | .none => true
   | .called cid o a r => decide (r = sem cid o a)
-  | .method bound o attr => decide (bound = tableFind (cfg.table o.lsb0) attr)
+  | .method bound o attr => decide (bound = tableLast (cfg.table o.lsb0) attr)
+
+/-- The calls of a system history, each with the options in force when it is made. -/
+def sysCallTrace (o : Opts) : List SysOp → List (Opts × CacheId × Call)
+  | [] => []
+  | .call cid a :: ops => (o, cid, a) :: sysCallTrace o ops
+  | .setOpt n v :: ops => sysCallTrace (o.set n v) ops
+  | _ :: ops => sysCallTrace o ops
+
+def strCalls (ops : List SysOp) : List (Opts × CacheId × Call) :=
+  (sysCallTrace Opts.init ops).filter fun p => decide (p.2.1 = CacheId.strToBitstore)
+
+/-- REGION of known deviation 2: a string with an exp-Golomb token is constructed under both lsb0 values. -/
+def reuse_after_lsb0_change (ops : List SysOp) : Bool :=
+  let t := strCalls ops
+  t.any fun p => t.any fun q =>
+    decide (p.2.2 = q.2.2) && p.2.2.readsLsb0 && !p.2.2.raises && (p.1.lsb0 != q.1.lsb0)
+
+/-- REGION of known deviation 1: a string with an overflowing e4m3mxfp/e5m2mxfp token is constructed (without
+    raising) under both mxfp_overflow values. -/
+def reuse_after_mxfp_overflow_change (ops : List SysOp) : Bool :=
+  let t := strCalls ops
+  t.any fun p => t.any fun q =>
+    decide (p.2.2 = q.2.2) && p.2.2.readsMxfp && !p.2.2.raises && (p.1.mxfpOverflow != q.1.mxfpOverflow)
+      && !(p.2.2.readsLsb0 && p.1.lsb0) && !(q.2.2.readsLsb0 && q.1.lsb0)
+
+/-! ## Invariants -/
+
+section invariants
+variable {α κ ν : Type}
+
+/-- Never more than `cap` entries, no key twice. -/
+def Bounded (cap : Nat) (c : Cache κ ν) : Prop := c.length ≤ cap ∧ (c.map Prod.fst).Nodup
+
+/-- Every entry is what the wrapped function returned for SOME call with that key under SOME options. -/
+def Computed (m : Cfg α κ ν) (c : Cache κ ν) : Prop :=
+  ∀ e ∈ c, ∃ o a, m.key a = e.1 ∧ m.f o a = .ok e.2
+
+/-- Every entry is what the wrapped function returns for its key under the options `o`. -/
+def Fresh (m : Cfg α κ ν) (o : Opts) (c : Cache κ ν) : Prop :=
+  ∀ e ∈ c, ∃ a, m.key a = e.1 ∧ m.f o a = .ok e.2
+
+/-- Calls the cache cannot tell apart compute the same thing (the key contains everything the function reads
+    from its arguments). -/
+def KeyDetermines (m : Cfg α κ ν) : Prop := ∀ o a a', m.key a = m.key a' → m.f o a = m.f o a'
+
+/-- Every option whose assignment does not clear the cache is not read by the wrapped function. -/
+def ReadsOnlyInvalidating (m : Cfg α κ ν) : Prop :=
+  ∀ n, m.inval n = false → ∀ o v a, m.f (o.set n v) a = m.f o a
+
+end invariants
+
+/-- All eight caches bounded. -/
+def SysBounded (cfg : SysCfg) (s : Sys) : Prop := ∀ cid, Bounded (cfg.cap cid) (s.get cid)
+
+/-- The two tables re-bind the same attributes. -/
+def SameKeys (cfg : SysCfg) : Prop :=
+  ∀ k, (tableLast cfg.tblLsb0 k).isSome = (tableLast cfg.tblMsb0 k).isSome
+
+def tableKeysSubset (t t' : Table) : Bool := t.all fun e => (t'.map (·.1)).contains e.1
+
+/-- `str_to_bitstore` alone, as one memoised function: keyed on the string, reading lsb0 and mxfp_overflow;
+    `inv` = do the option setters clear it (pinned tree: no). -/
+def strCfg (cap : Nat) (inv : Bool) : Cfg Call Call Val :=
+  { cap := cap, key := id, f := sem .strToBitstore,
+    inval := fun n => match n with | .bytealigned => false | _ => inv }
 
 /-! ## `Dtype._create`: the key is `(definition, length, scale)` compared with `==`, so `2`, `2.0`, `True`-like
     scales collide (dtypes.py:146-148); the Dtype that is served carries the scale object of the first caller. -/
@@ -338,6 +416,8 @@ def dtypeCreate (_ : Opts) (a : DtypeArg) : Except Err DtypeArg :=
 
 /-- Equality "by value": same name, same length, numerically equal scale. -/
 def DtypeArg.valueEq (a b : DtypeArg) : Prop := a.key = b.key
+
+instance (a b : DtypeArg) : Decidable (a.valueEq b) := by unfold DtypeArg.valueEq; infer_instance
 
 def dtypeCfg (cap : Nat) : Cfg DtypeArg (String × Option Nat × Option (Int × Nat)) DtypeArg :=
   { cap := cap, key := DtypeArg.key, f := dtypeCreate, inval := fun _ => false }
@@ -424,7 +504,7 @@ def classify (cfg : SysCfg) : SysOut → Char
     else if r = sem cid (o.set .lsb0 (!o.lsb0)) a then 'l'
     else if r = sem cid ((o.set .lsb0 (!o.lsb0)).set .mxfp (!o.mxfpOverflow)) a then 'b'
     else 'x'
-  | .method bound o attr => if bound = tableFind (cfg.table o.lsb0) attr then '=' else 'x'
+  | .method bound o attr => if bound = tableLast (cfg.table o.lsb0) attr then '=' else 'x'
 
 def handle (args : List String) : String :=
   match args, genCfg with
